@@ -45,25 +45,39 @@ def _unfold_continuations(code_string):
   # not a line continuation. Collect the rows whose line break lies inside such
   # a token; only the other rows are unfolded.
   protected_rows = set()
+  string_rows = set()
   # Literal parts of f-strings are separate tokens as of Python 3.12. The
   # replacement fields between them are ordinary code.
   fstring_middle = getattr(tokenize, 'FSTRING_MIDDLE', None)
+  fully_tokenized = True
   try:
     for tok in tokenize.generate_tokens(io.StringIO(code_string).readline):
       if tok.type == tokenize.COMMENT:
         protected_rows.add(tok.start[0])
       elif tok.type == tokenize.STRING or tok.type == fstring_middle:
-        protected_rows.update(range(tok.start[0], tok.end[0]))
+        string_rows.update(range(tok.start[0], tok.end[0]))
   except (tokenize.TokenError, IndentationError, SyntaxError):
     # Incomplete or oddly indented code (e.g. a lambda cut out of its
     # statement). Rows seen so far are still handled properly.
-    pass
+    fully_tokenized = False
+  protected_rows |= string_rows
 
-  lines = code_string.splitlines(True)
-  for i, line in enumerate(lines):
+  # Each unfolded row is made up for by an empty line after the statement (or
+  # bracketed line) it was folded into, so that the line numbers of the code
+  # that follows do not change.
+  new_lines = []
+  num_folded = 0
+  for i, line in enumerate(code_string.splitlines(True)):
     if line.endswith('\\\n') and (i + 1) not in protected_rows:
-      lines[i] = line[:-2]
-  return ''.join(lines)
+      new_lines.append(line[:-2])
+      num_folded += 1
+      continue
+    new_lines.append(line)
+    if (num_folded and fully_tokenized and line.endswith('\n') and
+        (i + 1) not in string_rows):
+      new_lines.append('\n' * num_folded)
+      num_folded = 0
+  return ''.join(new_lines)
 
 
 def dedent_block(code_string):
